@@ -14,7 +14,8 @@ from ..simobs import PhysicalityObserver
 
 PROPERTY = "C07"
 RULE = ("seeded programs of 1-5 modes (fock: 1-3) with up to 30 commands over all gates, channels and preparations of each "
-        "backend, higher energies on the Gaussian backends, boundary transmissivities (0, 1, 1e-12); the invariants are "
+        "backend, higher energies on the Gaussian backends, boundary transmissivities (0, 1, 1e-12), subsystems created (New) "
+        "and deleted (Del) in the middle of 30 % of the programs; the invariants are "
         "evaluated after every applied command. non-trivial = program in which the invariants were evaluated on >= 1 "
         "non-vacuum state; distinct = rounded program + backend.")
 ASSUMPTIONS = [
@@ -25,7 +26,8 @@ ASSUMPTIONS = [
 ]
 REQUIRED_MONITORS = ["physical:gaussian", "physical:bosonic", "physical:fock-pure", "physical:fock-mixed",
                      "purity:gaussian", "purity:fock-pure", "photon-number:gaussian", "photon-number:fock-mixed",
-                     "loss-monotone:gaussian", "trace:fock-pure", "trace:fock-mixed", "physical:fock(ket representation)", "physical-after-measurement"]
+                     "loss-monotone:gaussian", "trace:fock-pure", "trace:fock-mixed", "physical:fock(ket representation)", "physical-after-measurement",
+                     "physical-after-New/Del"]
 
 
 def load():
@@ -75,6 +77,13 @@ def gen_case(rng, simrun, backend):
                     c["kw"] = {"select": int(rng.integers(0, 2))}
             pos = int(rng.integers(len(spec["cmds"]) // 2, len(spec["cmds"]) + 1))
             spec["cmds"].insert(pos, c)
+    if rng.random() < 0.3 and (not fock or n <= 2):
+        # subsystems created / deleted in the middle of the program, on entangled states (New on bosonic: recorded
+        # finding under C08, not exercised here)
+        spec = simrun.extend_with_new_del(rng, gen, spec, allow | {"New", "Del"}, fock, 3 if fock else 6,
+                                          with_new=backend != "bosonic" and rng.random() < 0.8, with_del=rng.random() < 0.6)
+        if fock:
+            n = 3
     return {"spec": spec, "hbar": float(rng.choice([2.0, 2.0, 1.0, 0.5])), "backend": backend,
             "cutoff": 10 if n <= 2 else 7}
 
